@@ -337,7 +337,8 @@ Proof.
   - destruct (Qeq_bool (- a) (- b)) eqn:E; [apply Qeq_bool_eq in E; lra | ring].
   - destruct (Qeq_bool a b) eqn:E, (Qeq_bool (- a) (- b)) eqn:E'; try ring.
     + apply Qeq_bool_eq in E. apply Qeq_bool_neq in E'. exfalso. apply E'. rewrite E. reflexivity.
-    + apply Qeq_bool_eq in E'. apply Qeq_bool_neq in E. exfalso. apply E. lra.
+    + apply Qeq_bool_neq in E. exfalso. apply E. lra.
+    + apply Qeq_bool_neq in E. exfalso. apply E. lra.
 Qed.
 
 Lemma scores_inverted (f : aucpair -> bool) es : (forall a b : aucpair, snd a = snd b -> f a = f b) ->
@@ -349,7 +350,7 @@ Proof.
 Qed.
 
 Lemma qsum_const {X} (c : Q) (l : list X) : qsum (map (fun _ => c) l) == c * Qn (length l).
-Proof. induction l as [|x l IH]; simpl; [ring | rewrite IH, Qn_S; ring]. Qed.
+Proof. induction l as [|x l IH]; simpl; [change (Qn 0) with 0; ring | rewrite IH, Qn_S; ring]. Qed.
 
 Theorem pair_count_inverted es :
   pair_count (auc_list true es)
@@ -371,9 +372,15 @@ Definition auc_P (es : list (nat * Q)) : nat := length (filter (fun e => (0 <? f
 Definition auc_N (es : list (nat * Q)) : nat := length (filter (fun e => negb (0 <? fst e)%nat) es).
 
 Lemma auc_P_list inv es : length (filter is_pos (auc_list inv es)) = auc_P es.
-Proof. unfold auc_P, auc_list. induction es as [|e es IH]; simpl; [reflexivity|]. unfold is_pos at 1. simpl. destruct (0 <? fst e)%nat; simpl; rewrite IH; reflexivity. Qed.
+Proof.
+  unfold auc_P, auc_list, is_pos. induction es as [|e es IH]; cbn [filter map length fst snd]; [reflexivity|].
+  destruct (0 <? fst e)%nat; cbn [length]; rewrite IH; reflexivity.
+Qed.
 Lemma auc_N_list inv es : length (filter is_neg (auc_list inv es)) = auc_N es.
-Proof. unfold auc_N, auc_list. induction es as [|e es IH]; simpl; [reflexivity|]. unfold is_neg, is_pos at 1. simpl. destruct (0 <? fst e)%nat; simpl; rewrite IH; reflexivity. Qed.
+Proof.
+  unfold auc_N, auc_list, is_neg, is_pos. induction es as [|e es IH]; cbn [filter map length fst snd]; [reflexivity|].
+  destruct (0 <? fst e)%nat; cbn [length negb]; rewrite IH; reflexivity.
+Qed.
 
 (* complete description of the result *)
 Theorem nauc_eval_spec inv (d : @data (nat * Q)) :
@@ -391,7 +398,7 @@ Proof.
     + intros _ [H|H]; rewrite H; [reflexivity | rewrite orb_true_r; reflexivity].
     + intros _ HP HN.
       destruct (auc_P es =? 0)%nat eqn:E1; [apply Nat.eqb_eq in E1; lia|].
-      destruct (auc_N es =? 0)%nat eqn:E2; [apply Nat.eqb_eq in E2; lia|]. simpl.
+      destruct (auc_N es =? 0)%nat eqn:E2; [apply Nat.eqb_eq in E2; lia|]. cbn [orb].
       eexists. split; [reflexivity|].
       rewrite (auc_sweep_any_sorted_permutation _ _ (auc_list inv es) _ HP HN (sort_desc_perm _) (sort_desc_sorted _)). reflexivity.
 Qed.
